@@ -49,3 +49,40 @@ PROPS["C08"] = dict(
     min_nontrivial=dict(quick=3000, thorough=100000),
     stages=[dict(name="mainsm", target="c08", quick=dict(cases=4000, maxsize=80), thorough=dict(cases=40000, maxsize=100))],
 )
+
+_HIST_RULE = ("API histories: a start LP (planted generator, 10% empty) plus 1..30 (quick) / 1..60 (thorough) operations over the real "
+              "modification interface - addRow(s)/addCol(s) incl. implicitly created columns/rows, changeRow/changeCol, "
+              "changeLhs/Rhs/Range/Lower/Upper/Bounds/Obj (single and vector forms), changeElement, removeRow/Col (single, "
+              "perm array, index list with and without perm output, range), clearLP, objective sense/offset - interleaved with "
+              "optimize, getBasis/setBasis round trips and clearBasis, under a random configuration (representation, algorithm, "
+              "simplifier, 7 scalers, persistent scaling, update type, pricer, ratio tester, seed). After EVERY step all accessors "
+              "are compared bit-exactly with an exact reference model (data are integers x 2^k); after every solve: certificate "
+              "oracle, z3 truth for LPs <= 10x10, Farkas/ray checks, comparison with a fresh solver given the final LP, basis "
+              "validity / consistency across queries / exact regularity. ")
+PROPS["C06"] = dict(
+    level="exploration",
+    rule=_HIST_RULE + "non-trivial = the history contains a removal after a solve, followed by another solve; distinct = case text.",
+    assumptions=["the reference model implements only documented behaviour: single removal moves the last element into the hole "
+                 "(dataset.h), multi-removals follow the reported permutation, implicitly created columns/rows have the default "
+                 "LPCol/LPRow values", "zero-dimensional LPs are modified and compared but their solves are not judged"],
+    min_nontrivial=dict(quick=2000, thorough=100000),
+    stages=[dict(name="hist", target="hist", x=dict(prop="C06"), quick=dict(cases=1500, maxsize=80), thorough=dict(cases=40000, maxsize=100)),
+            dict(name="asan", target="hist", flavour="asan", x=dict(prop="C06"), quick=dict(cases=60, maxsize=60, shards=8), thorough=dict(cases=2500, maxsize=100))],
+)
+PROPS["C09"] = dict(
+    level="exploration",
+    rule=_HIST_RULE + "Configurations are biased to a scaler with persistent scaling. non-trivial = a modification was executed while "
+         "the LP inside the solver was persistently scaled (observed through the guarded hook) and >= 2 solves; distinct = case text.",
+    assumptions=["part (d) of the C09 design (data added/changed under persistent scaling) and the accessor-invisibility claim; parts (a)-(c) "
+                 "(bare scaler objects, file bytes) are covered by C01/C02 scaled variants and C12"],
+    min_nontrivial=dict(quick=1500, thorough=80000),
+    stages=[dict(name="hist", target="hist", x=dict(prop="C09"), quick=dict(cases=1500, maxsize=80), thorough=dict(cases=40000, maxsize=100))],
+)
+PROPS["C04"] = dict(
+    level="exploration",
+    rule=_HIST_RULE + "non-trivial = a checked basis has >= 1 basic column and >= 1 nonbasic row, or comes from a non-optimal "
+         "termination; distinct = case text.",
+    assumptions=["regularity is judged exactly (rank over Q of the basis matrix assembled from the model) for bases returned by solves"],
+    min_nontrivial=dict(quick=4000, thorough=150000),
+    stages=[dict(name="hist", target="hist", x=dict(prop="C04"), quick=dict(cases=1500, maxsize=80), thorough=dict(cases=40000, maxsize=100))],
+)
